@@ -49,6 +49,35 @@ def units_for(prop, tier):
 
 
 def run_verus(unit_path, canary=False):
+    """Generate + verify one unit; a failing or resource-limited run is repeated with other solver seeds.
+    A proof found under any seed is a proof, so only obligations that fail under *every* attempt are
+    reported (this keeps solver instability from turning into alarms)."""
+    res = run_verus_once(unit_path, canary, seed=None)
+    if canary or res.get('status') not in ('failed', 'undecided') or 'em' not in res:
+        return res
+    attempts = [res]
+    for seed in (7, 1234):
+        nxt = run_verus_once(unit_path, canary, seed=seed)
+        attempts.append(nxt)
+        if nxt.get('status') == 'ok':
+            nxt['retries'] = len(attempts) - 1
+            return nxt
+    # keep only failures that every attempt reports (same function + same label set / kind)
+    def key(f):
+        return (f.get('fn'), tuple(f.get('labels') or []), f.get('kind') if not f.get('labels') else 'clause')
+    final = attempts[-1]
+    if all(a.get('status') == 'failed' for a in attempts):
+        common = set(key(f) for f in attempts[0]['failures'])
+        for a in attempts[1:]:
+            common &= set(key(f) for f in a['failures'])
+        final['failures'] = [f for f in final['failures'] if key(f) in common]
+        if not final['failures']:
+            final.update(status='undecided', reason='failures differ between solver seeds (unstable proof)')
+    final['retries'] = len(attempts) - 1
+    return final
+
+
+def run_verus_once(unit_path, canary=False, seed=None):
     """Generate + verify one unit. Returns dict(status, ...)."""
     name = os.path.splitext(os.path.basename(unit_path))[0]
     os.makedirs(os.path.join(WORK, 'units'), exist_ok=True)
@@ -70,6 +99,8 @@ def run_verus(unit_path, canary=False):
     verify_only = mvo.group(1) if mvo else None
     if verify_only:
         cmd += ['--verify-root', '--verify-function', verify_only]
+    if seed is not None:
+        cmd += ['--smt-option', f'smt.random_seed={seed}', '--smt-option', f'sat.random_seed={seed}']
     try:
         p = subprocess.run(cmd, capture_output=True, text=True, timeout=VERUS_TIMEOUT, cwd=os.path.join(WORK, 'units'))
     except subprocess.TimeoutExpired:
